@@ -99,11 +99,29 @@ def run_case(case):
         obs['runs_completed'] = 1
         obs['offline_checks'] = 1
         out.extend(seqmodels.check_feedback(ev, r, S['increments'], S['sensors'], S['start'], loop))
+    # interleaving signature: how many measurement epochs fall into each sampling interval (run-length coded), the relation of the covariance
+    # step to the sampling interval, and which sensors share epochs - the evidence reports how many DISTINCT interleavings were driven
+    t_ = S['times']
+    all_e = np.unique(np.concatenate([np.asarray(m_.data.index, float) for m_ in S['sensors']] + [np.array([])]))
+    ins = all_e[(all_e >= t_[0]) & (all_e < t_[-1])]
+    per = np.bincount(np.searchsorted(t_, ins, side='right'), minlength=len(t_) + 1)[1:len(t_)] if len(ins) else np.zeros(len(t_) - 1, int)
+    on_stamp = int(np.isin(ins, t_).sum())
+    rl = []
+    for v_ in per.tolist():
+        if rl and rl[-1][0] == v_:
+            rl[-1][1] += 1
+        else:
+            rl.append([v_, 1])
+    shared_ = sum(len(np.intersect1d(np.asarray(a_.data.index, float), np.asarray(b_.data.index, float))) > 0
+                  for i_, a_ in enumerate(S['sensors']) for b_ in S['sensors'][i_ + 1:])
+    ratio = d['time_step'] / d['median_dt']
+    band = 'ts<dt' if ratio < 0.999 else 'ts=dt' if ratio < 1.001 else 'ts<10dt' if ratio < 10 else 'ts>=10dt'
+    signature = f"{d['imu']}|{band}|on{on_stamp}|sh{shared_}|" + ','.join(f'{a_}x{b_}' for a_, b_ in rl)
     trivial = (d['imu'] == 'uniform' and d['max_epochs_in_one_interval'] <= 1 and abs(d['time_step'] - 1.0) < 1e-9
                and all(set(s['modes']) <= {'on'} for s in d['sensors']))
     for v in out:
         v.setdefault('detail', {})['schedule'] = d
-    return dict(violations=out, obs=obs, nontrivial=not trivial, sample=dict(schedule=d, iterations=loop.iterations,
+    return dict(violations=out, obs=obs, nontrivial=not trivial, signatures=[signature], sample=dict(schedule=d, iterations=loop.iterations,
                                                                             events=len(ev)))
 
 
